@@ -17,7 +17,8 @@ META = {
         'matrix without importing or running the package. On the matrix it decides irreflexivity, asymmetry, '
         'totality (trichotomy with __eq__), transitivity over all triples, and equality of the induced chain '
         'with the order written down from the property (sa/specs/order.json). R2 checks the eq/hash contract '
-        'structurally (attr.s(eq=False, hash=True), total_ordering, __eq__ on the code, alias-free codes).'),
+        'structurally (attr.s(eq=False, hash=True), total_ordering, __eq__ on the code, alias-free codes).'
+        ' R3: every rich comparison operator found in the MRO (an inherited one is not derived by total_ordering) agrees with the (<, ==) matrix; wire bytes of compose() are folded from the composer layout.'),
     'assumptions': ['functools.total_ordering derives >, <=, >= from __lt__ and __eq__ as documented',
                     'attrs hash=True hashes the tuple of fields (here: the version member)'],
     'trusted_base': ['python ast', 'sa.interp constant propagation', 'cryptodatahub tls/version.json', 'sa/specs/order.json'],
